@@ -331,6 +331,10 @@ func VerifC08_settings() {
 	old := vfI32("old initial window")
 	vfAssume(old >= 0)
 	sc.initialStreamSendWindowSize = old
+	// the frame size limit in force is arbitrary as well (an earlier SETTINGS frame may have raised it): a later
+	// frame must be able to lower it again (added after seeded change C08-H)
+	sc.maxFrameSize = vfI32("old max frame size")
+	vfAssume(sc.maxFrameSize >= 16384 && sc.maxFrameSize <= 1<<24-1)
 	mfs0 := sc.maxFrameSize
 	c0, a0, b0 := sc.flow.n, s1.flow.n, s3.flow.n
 	v := vfU32("SETTINGS_INITIAL_WINDOW_SIZE")
